@@ -149,7 +149,7 @@ def PR.readPage (r : PR) (p : Nat) : PR × Bool :=
     let (bs, dev2) := dev1.read r.pageSize
     if bs.length < r.pageSize then
       -- `read_exact` failed: cannot happen on an ideal device whose size is a multiple of the page size
-      ({ r with dev := dev2, page := bs ++ r.page.drop bs.length }, false)
+      ({ r with dev := dev2, page := bs ++ r.page.drop bs.length, pageNum := none }, false)
     else
       let dataSize := r.pageSize - 4
       if bs.drop dataSize ≠ crcBytes (bs.take dataSize) then
